@@ -86,11 +86,12 @@ Confined == LET rv == Resolve(name) IN
 -----------------------------------------------------------------------------
 \* role names
 Unreserved == {"a", "F", "2", "_", ".", "~", "-"}     \* members of the alphabet that are not encoded
-\* "^" stands for U+0001 and "@" for U+00E9 (two UTF-8 bytes): the harness substitutes them
-Hex == [c \in {"/", "\\", "%", "?", "#", ":", " ", "^", "@"} |->
+\* "^" stands for U+0001, "`" for U+0009 (TAB, which URL parsing silently drops from its input) and
+\* "@" for U+00E9 (two UTF-8 bytes): the harness substitutes them
+Hex == [c \in {"/", "\\", "%", "?", "#", ":", " ", "^", "`", "@"} |->
           CASE c = "/" -> <<"%", "2", "F">> [] c = "\\" -> <<"%", "5", "C">> [] c = "%" -> <<"%", "2", "5">>
             [] c = "?" -> <<"%", "3", "F">> [] c = "#" -> <<"%", "2", "3">> [] c = ":" -> <<"%", "3", "A">>
-            [] c = " " -> <<"%", "2", "0">> [] c = "^" -> <<"%", "0", "1">>
+            [] c = " " -> <<"%", "2", "0">> [] c = "^" -> <<"%", "0", "1">> [] c = "`" -> <<"%", "0", "9">>
             [] c = "@" -> <<"%", "C", "3", "%", "A", "9">>]
 RECURSIVE Encode(_)
 Encode(s) == IF s = <<>> THEN <<>>
@@ -103,7 +104,7 @@ PlainEntry == \A i \in DOMAIN RoleFile(name) : RoleFile(name)[i] # "/"
 
 -----------------------------------------------------------------------------
 TargetAlphabet == {"a", ".", "/", "\\", " ", "@", "^"}
-RoleAlphabet == {"a", "F", "2", "/", "\\", ".", "%", "?", "#", ":", " ", "^", "@"}
+RoleAlphabet == {"a", "F", "2", "/", "\\", ".", "%", "?", "#", ":", " ", "^", "`", "@"}
 RECURSIVE Flat(_)
 Flat(s) == IF s = <<>> THEN "" ELSE s[1] \o Flat(Tail(s))
 Emit == IF Mode = "target"
